@@ -15,6 +15,7 @@ pub fn gen_case(fam: &str, r: &mut Rng, i: u64, p: &HashMap<String, String>) -> 
         "c14" => c14(r, i, p),
         "c07" => c07(r, i, p),
         "c10" => c10(r, i, p),
+        "c01" => c01(r, i, p),
         "c16" => c16(r, i, p),
         "c05" => c05(r, i, p),
         "c06" => c06(r, i, p),
@@ -590,4 +591,76 @@ fn c16(r: &mut Rng, i: u64, p: &HashMap<String, String>) -> Vec<Value> {
             vec![json!({"id": id("c16", i), "runs": [run(&doc_html(&body), w, cfg("trivial", ops), "string")]})]
         }
     }
+}
+
+fn css_snippet(r: &mut Rng) -> String {
+    let sels = ["p", ".x", "#i", "div p", "ul > li", "li:nth-child(2n+1)", "*", "em.x", "td", "table", "h1, h2", "li:nth-child(odd)", "a", "span", "p:nth-child(-n+3)"];
+    let decls = ["color: red", "color: #0a0", "background-color: rgb(1,2,3)", "display: none", "white-space: pre", "white-space: pre-wrap", "color: blue !important", "height: 0; overflow: hidden", "foo: bar", "color:", "display: block"];
+    let mut s = String::new();
+    for _ in 0..r.range(1, 4) {
+        match r.below(8) {
+            0 => s.push_str("@media print { p { color: red } } "),
+            1 => s.push_str("/* c */ "),
+            2 => s.push_str(&format!("{} {{ {} ", r.pick(&sels), r.pick(&decls))), // unterminated
+            _ => s.push_str(&format!("{} {{ {}; {} }} ", r.pick(&sels), r.pick(&decls), r.pick(&decls))),
+        }
+    }
+    s
+}
+fn any_config(r: &mut Rng, bounded_width: bool) -> (Value, &'static str) {
+    let decos = ["plain", "plain_nd", "rich", "trivial", "ascii"];
+    let dn = *r.pick(&decos);
+    let deco = if dn == "ascii" { json!({"custom": {"link_s": "<", "link_e": ">", "em_s": "_", "em_e": "_", "strong_s": "!!", "strong_e": "!!", "strike_s": "~", "strike_e": "~",
+                    "code_s": "`", "code_e": "`", "img_s": "(", "img_e": ")", "hdr": "=", "hdr_tail": " ", "quote": "| ", "ul": "- ", "ol_suffix": ") "}}) } else { json!(dn) };
+    let mut ops = vec![];
+    if r.chance(1, 3) { ops.push(json!(["overflow"])); }
+    if r.chance(1, 4) { ops.push(json!(["min_wrap", *r.pick(&[0u64, 1, 3, 8, 1000])])); }
+    if r.chance(1, 4) { let m = *r.pick(&["1", "0", "5", "40", "max"]); ops.push(if m == "max" { json!(["max_wrap", "max"]) } else { json!(["max_wrap", m.parse::<u64>().unwrap()]) }); }
+    if bounded_width && r.chance(1, 4) { ops.push(json!(["pad"])); }
+    if r.chance(1, 5) { ops.push(json!(["raw", r.chance(1, 2)])); }
+    if r.chance(1, 5) { ops.push(json!(["noborders"])); }
+    if r.chance(1, 5) { ops.push(json!(["nolinkwrap"])); }
+    if r.chance(1, 3) { ops.push(json!(["footnotes", r.chance(1, 2)])); }
+    if r.chance(1, 5) { ops.push(json!(["strike", r.chance(1, 2)])); }
+    if r.chance(1, 5) { ops.push(json!(["decorate"])); }
+    if r.chance(1, 3) { ops.push(json!(["doccss"])); }
+    if r.chance(1, 4) { ops.push(json!(["css", css_snippet(r)])); }
+    if r.chance(1, 6) { ops.push(json!(["agentcss", css_snippet(r)])); }
+    let route = if dn == "rich" { *r.pick(&["string", "lines", "coloured", "staged_string", "staged_lines", "staged_coloured"]) } else { *r.pick(&["string", "lines", "staged_string", "staged_clone_string"]) };
+    (json!({"deco": deco, "ops": ops}), route)
+}
+/// C01: bytes of every kind x widths {0, tiny, ordinary, 10^5, usize::MAX} x the configuration product.
+fn c01(r: &mut Rng, i: u64, p: &HashMap<String, String>) -> Vec<Value> {
+    let maxdepth: u64 = p.get("depth").and_then(|s| s.parse().ok()).unwrap_or(3000);
+    let bytes: Vec<u8> = match r.below(10) {
+        0 | 1 | 2 | 3 => { let mut f = if r.chance(1, 2) { Feat::all() } else { Feat::notables() }; f.ids = r.chance(1, 3); f.sup = r.chance(1, 3);
+                           let mut g = G::new(r, f); let body = g.flow(0);
+                           let style = if r.chance(1, 3) { format!("<style>{}</style>", css_snippet(r)) } else { String::new() };
+                           let html = format!("{}{}", style, doc_html(&body)); mutate(r, html.as_bytes()) }
+        4 => { let n = r.below(400); (0..n).map(|_| if r.chance(1, 3) { *r.pick(b"<>/=\"' &;!-") } else { r.below(256) as u8 }).collect() }
+        5 | 6 => { // deep nesting
+            let d = *r.pick(&[100u64, 1000, maxdepth]);
+            let tag = *r.pick(&["<div>", "<ul><li>", "<table><tr><td>", "<blockquote>", "<b>", "<span>", "<ol><li>", "<dl><dd>", "<em>", "<a href=x>", "<h2>", "<s>", "<sup>", "<pre>", "<p><span>", "<table><tr><td><ul><li>", "<div id=q>", "<span id=q>"]);
+            let mut s = String::new(); for _ in 0..d { s.push_str(tag); } s.push_str("deep text here"); if r.chance(1, 2) { s.push_str(&"</div></li></td></blockquote>".repeat(3)); }
+            s.into_bytes() }
+        7 => { // hostile numeric attributes
+            let cs = ["0", "1", "2", "18446744073709551615", "18446744073709551614", "9223372036854775807", "4294967296", "-1", "65536", "1000000", "x", "", "+3"];
+            let st = ["9223372036854775807", "-9223372036854775808", "9223372036854775806", "0", "-1", "99999999999999999999", "1e3", "2147483647"];
+            let mut s = String::from("<table>");
+            for _ in 0..r.range(1, 3) { s.push_str("<tr>"); for _ in 0..r.range(1, 4) { s.push_str(&format!("<td colspan={}>c{}</td>", r.pick(&cs), r.below(9))); } }
+            s.push_str("</table>");
+            s.push_str(&format!("<ol start={}>", r.pick(&st))); for _ in 0..r.range(0, 4) { s.push_str("<li>i</li>"); } s.push_str("</ol>");
+            s.into_bytes() }
+        8 => { // wide / long
+            let mut s = String::from("<table><tr>"); for k in 0..r.range(50, 400) { s.push_str(&format!("<td>c{}</td>", k)); } s.push_str("</table>");
+            s.push_str(&"x".repeat(r.range(100, 3000) as usize)); for k in 0..r.range(0, 60) { s.push_str(&format!("<a href=u{}>l</a> ", k)); }
+            s.into_bytes() }
+        _ => { let mut g = G::new(r, Feat::all()); let body = g.flow(0); doc_html(&body).into_bytes() }
+    };
+    let wsel = r.below(12);
+    let (w, wx): (u64, Option<&str>) = match wsel { 0 => (0, None), 1 => (1, None), 2 => (2, None), 3 => (3, None), 4 => (100000, None), 5 => (0, Some("max")), 6 => (0, Some("max-1")), _ => (r.range(1, 200), None) };
+    let (cfgv, route) = any_config(r, wx.is_none() && w <= 200);
+    let mut run = json!({"hx": hex(&bytes), "w": w, "cfg": cfgv, "route": route});
+    if let Some(x) = wx { run["wx"] = json!(x); }
+    vec![json!({"id": id("c01", i), "dom": false, "runs": [run]})]
 }
